@@ -6,6 +6,8 @@ import (
 	"math/rand"
 	"strings"
 	"sync"
+	"sync/atomic"
+	"verif/internal/gen"
 
 	"perun.network/go-perun/channel"
 	"perun.network/go-perun/wallet"
@@ -163,6 +165,9 @@ type ForkableObserver interface {
 	Fork() ForkableObserver
 }
 
+// Clones counts the machine copies random walks continued on.
+var Clones int64
+
 // RandomWalk executes a random operation sequence of the given length from a fresh machine
 // (no forking: the machine is driven by calls only).
 func RandomWalk(w *World, r *rand.Rand, length int, d Driver, obs ForkableObserver) *Exec {
@@ -170,6 +175,12 @@ func RandomWalk(w *World, r *rand.Rand, length int, d Driver, obs ForkableObserv
 	e := NewExec(w, d)
 	// bias towards operations that make progress so that deep phases are reached
 	for i := 0; i < length; i++ {
+		// now and then the walk continues on a copy of the machine: Clone must be
+		// indistinguishable from the original for everything that follows
+		if p, ok := e.D.(Plain); ok && r.Intn(12) == 0 {
+			e.D = Plain{StateMachine: p.StateMachine.Clone()}
+			atomic.AddInt64(&Clones, 1)
+		}
 		var op Op
 		if r.Intn(3) == 0 {
 			op = alpha[r.Intn(len(alpha))]
@@ -339,7 +350,8 @@ func (m *SignedMonitor) Observe(e *Exec, st *Step) {
 	cur := st.After.Current
 	full, ex, ss := 0, 0, 0
 	if cur.State != nil {
-		if cur.State == m.exempt {
+		if cur.State == m.exempt || (m.exempt != nil && bytes.Equal(gen.EncodeState(cur.State), gen.EncodeState(m.exempt))) {
+			// (by content, not only by pointer: the walk may continue on a clone of the machine)
 			ex = 1
 		} else {
 			if len(cur.Sigs) != n {
